@@ -163,7 +163,7 @@ static int choose_alloc_ep(State& S) {
   else if (pr == "walk") { aligned_pct = 10; }
   bool zero = chance(S, zero_pct, 100), heap = chance(S, heap_pct, 100);
   unsigned r = (unsigned)below(S, 100);
-  if (r < str_pct) { static const int e[] = { EP_strdup, EP_strndup, EP_heap_strdup, EP_heap_strndup }; return e[below(S, 4)]; }
+  if (r < str_pct) { static const int e[] = { EP_strdup, EP_strndup, EP_heap_strdup, EP_heap_strndup, EP_strdup, EP_strndup, EP_wcsdup, EP_mbsdup, EP_dupenv_s }; return e[below(S, 9)]; }
   r -= str_pct;
   if (r < new_pct && !zero) {
     if (S.cfg.allow_null) return (chance(S, 1, 2) ? EP_new_nothrow : EP_new_aligned_nothrow);
@@ -229,12 +229,12 @@ static vf::Blk* accept_block(State& S, void* p, size_t n, int heap, size_t a, si
   size_t u = mi_usable_size(p);
   if (u < n) vf_trip("usable-size", "C03", "%s(n=%zu): mi_usable_size=%zu < requested", ep_names[ep], n, u);
   if (a != 0) {
-    if ((((uintptr_t)p + o) & (a - 1)) != 0) vf_trip("alignment", "C03", "%s(n=%zu, align=%zu, offset=%zu) returned %p: (p+offset) %% align = %zu", ep_names[ep], n, a, o, p, (size_t)(((uintptr_t)p + o) & (a - 1)));
+    if (((vf::addr(p) + o) & (a - 1)) != 0) vf_trip("alignment", "C03", "%s(n=%zu, align=%zu, offset=%zu) returned %p: (p+offset) %% align = %zu", ep_names[ep], n, a, o, p, (size_t)(((uintptr_t)p + o) & (a - 1)));
     S.n_aligned++; S.align_hist[a]++;
   }
   else {
     size_t need = (n >= 16 ? 16 : 8);
-    if (((uintptr_t)p & (need - 1)) != 0) vf_trip("alignment", "C03", "%s(n=%zu) returned %p which is not %zu-byte aligned", ep_names[ep], n, p, need);
+    if ((vf::addr(p) & (need - 1)) != 0) vf_trip("alignment", "C03", "%s(n=%zu) returned %p which is not %zu-byte aligned", ep_names[ep], n, p, need);
   }
   if (zero) {
     size_t bad = vf::first_nonzero((const uint8_t*)p, 0, n);
@@ -304,6 +304,43 @@ vf::Blk* do_alloc(State& S, int force_ep, size_t force_size) {
     case EP_new_n: split_count(S, n, &cnt, &sz); n = cnt * sz; p = mi_new_n(cnt, sz); break;
     case EP_heap_alloc_new: hi = pick_heap(S); h = S.heaps[hi].h; p = mi_heap_alloc_new(h, n); break;
     case EP_heap_alloc_new_n: hi = pick_heap(S); h = S.heaps[hi].h; split_count(S, n, &cnt, &sz); n = cnt * sz; p = mi_heap_alloc_new_n(h, cnt, sz); break;
+    case EP_wcsdup: {            // 16-bit units, terminator included in the copy
+      is_str = true;
+      size_t L = (n / 2 > 4096 ? (size_t)below(S, 4097) : n / 2);
+      unsigned short* src = (unsigned short*)malloc((L + 1) * sizeof(unsigned short));
+      for (size_t i = 0; i < L; i++) src[i] = (unsigned short)(1 + (vf_mix64(S.op_index * 137 + i) % 65535));
+      src[L] = 0;
+      p = mi_wcsdup(src);
+      n = (L + 1) * sizeof(unsigned short);
+      if (p != nullptr && memcmp(p, src, n) != 0) vf_trip("strdup-contents", generic_refutes(), "mi_wcsdup: duplicate of a string of %zu 16-bit units differs from the source", L);
+      if (mi_wcsdup(nullptr) != nullptr) vf_trip("strdup-contents", generic_refutes(), "mi_wcsdup(NULL) returned a block");
+      free(src);
+      break; }
+    case EP_mbsdup: case EP_dupenv_s: {
+      is_str = true;
+      size_t L = (n > 4096 ? (size_t)below(S, 4097) : n);
+      char* src = (char*)malloc(L + 1);
+      for (size_t i = 0; i < L; i++) src[i] = (char)(1 + (vf_mix64(S.op_index * 139 + i) % 255));
+      src[L] = 0;
+      if (ep == EP_mbsdup) p = mi_mbsdup((const unsigned char*)src);
+      else {
+        // the value goes through the process environment (setenv copies it with the C library's allocator, which this harness does not replace)
+        char* buf = (char*)0x1; size_t sz = (size_t)-1;
+        if (setenv("VF_DUPENV_VALUE", src, 1) != 0) { free(src); return nullptr; }
+        int rc = mi_dupenv_s(&buf, &sz, "VF_DUPENV_VALUE");
+        if (rc != 0 && !(rc == ENOMEM && buf == nullptr)) vf_trip("strdup-contents", generic_refutes(), "mi_dupenv_s returned %d for a variable that is set", rc);
+        p = (rc == 0 ? buf : nullptr);
+        if (rc == 0 && (p == nullptr || sz != L)) vf_trip("strdup-contents", generic_refutes(), "mi_dupenv_s: buffer %p, reported length %zu for a value of %zu characters", p, sz, L);
+        char* none = (char*)0x1; size_t nsz = 77;
+        int rc2 = mi_dupenv_s(&none, &nsz, "VF_DUPENV_NOT_SET");
+        if (rc2 != 0 || none != nullptr || nsz != 0) vf_trip("strdup-contents", generic_refutes(), "mi_dupenv_s of an unset variable: rc=%d buffer=%p size=%zu (expected 0, NULL, 0)", rc2, (void*)none, nsz);
+        if (mi_dupenv_s(nullptr, &nsz, "VF_DUPENV_VALUE") != EINVAL || mi_dupenv_s(&none, &nsz, nullptr) != EINVAL) vf_trip("strdup-contents", generic_refutes(), "mi_dupenv_s accepted a NULL argument");
+        unsetenv("VF_DUPENV_VALUE");
+      }
+      n = L + 1;
+      if (p != nullptr && (memcmp(p, src, L) != 0 || ((char*)p)[L] != 0)) vf_trip("strdup-contents", generic_refutes(), "%s: duplicate of a %zu-byte string differs from the source", ep_names[ep], L);
+      free(src);
+      break; }
     case EP_strdup: case EP_strndup: case EP_heap_strdup: case EP_heap_strndup: {
       is_str = true;
       size_t L = (n > 8192 ? (size_t)below(S, 8193) : n);
@@ -526,8 +563,8 @@ static void do_realloc(State& S) {
     case EP_realloc_aligned_at: q = mi_realloc_aligned_at(p, nn, a, o); break;
     case EP_rezalloc_aligned: q = mi_rezalloc_aligned(p, nn, a); break;
     case EP_rezalloc_aligned_at: q = mi_rezalloc_aligned_at(p, nn, a, o); break;
-    case EP_recalloc_aligned: q = mi_recalloc_aligned(p, cnt, sz, a); break;
-    case EP_recalloc_aligned_at: q = mi_recalloc_aligned_at(p, cnt, sz, a, o); break;
+    case EP_recalloc_aligned: q = ((S.op_index & 1) ? mi_aligned_recalloc(p, cnt, sz, a) : mi_recalloc_aligned(p, cnt, sz, a)); break;
+    case EP_recalloc_aligned_at: q = ((S.op_index & 1) ? mi_aligned_offset_recalloc(p, cnt, sz, a, o) : mi_recalloc_aligned_at(p, cnt, sz, a, o)); break;
     case EP_heap_realloc_aligned: q = mi_heap_realloc_aligned(h, p, nn, a); break;
     case EP_heap_realloc_aligned_at: q = mi_heap_realloc_aligned_at(h, p, nn, a, o); break;
     case EP_heap_rezalloc_aligned: q = mi_heap_rezalloc_aligned(h, p, nn, a); break;
@@ -589,18 +626,18 @@ static void do_realloc(State& S) {
   // alignment kept when re-allocating with the same alignment (and offset)
   size_t na = 0, no = 0;
   if (aligned && same_ao) {
-    if ((((uintptr_t)q + o) & (a - 1)) != 0) vf_trip("alignment", "C03", "%s(%p, n=%zu, align=%zu, offset=%zu) of a block allocated with the same alignment returned %p: (q+offset) %% align = %zu",
+    if (((vf::addr(q) + o) & (a - 1)) != 0) vf_trip("alignment", "C03", "%s(%p, n=%zu, align=%zu, offset=%zu) of a block allocated with the same alignment returned %p: (q+offset) %% align = %zu",
                                                     ep_names[ep], (void*)p, nn, a, o, q, (size_t)(((uintptr_t)q + o) & (a - 1)));
     na = a; no = o; S.n_aligned++;
   }
-  else if (aligned && o == 0 && a > sizeof(void*) && (a & (a - 1)) == 0 && (((uintptr_t)q) & (a - 1)) != 0)
+  else if (aligned && o == 0 && a > sizeof(void*) && (a & (a - 1)) == 0 && ((vf::addr(q)) & (a - 1)) != 0)
     // the aligned realloc entry points without an offset promise an aligned result (alloc_align attribute in mimalloc.h) whatever the old block was
     vf_trip("alignment", "C03", "%s(%p, n=%zu, align=%zu) returned %p which is not aligned to %zu (the old block was not allocated with that alignment)", ep_names[ep], (void*)p, nn, a, q, a);
   else if (!moved) { na = old.align; no = old.off; }
-  else if (aligned && (((uintptr_t)q + o) & (a - 1)) == 0) { na = a; no = o; }
+  else if (aligned && ((vf::addr(q) + o) & (a - 1)) == 0) { na = a; no = o; }
   else {
     size_t need = (nn >= 16 ? 16 : 8);
-    if (!aligned && ((uintptr_t)q & (need - 1)) != 0) vf_trip("alignment", "C03", "%s(n=%zu) returned %p which is not %zu-byte aligned", ep_names[ep], nn, q, need);
+    if (!aligned && (vf::addr(q) & (need - 1)) != 0) vf_trip("alignment", "C03", "%s(n=%zu) returned %p which is not %zu-byte aligned", ep_names[ep], nn, q, need);
   }
   int nheap = (moved ? hi : old.heap);
   arena_range_check(S, q, u, nheap, ep_names[ep]);
@@ -627,7 +664,10 @@ static void do_expand(State& S) {
   else if (r < 80) nn = b->u + 1 + (size_t)below(S, 64);
   else nn = b->n;
   vf_cur_what = "expand";
-  void* q = mi_expand(b->p, nn);
+  const bool ms_alias = chance(S, 1, 3);      // mi__expand: same contract, errno = ENOMEM on refusal
+  errno = 0;
+  void* q = (ms_alias ? mi__expand(b->p, nn) : mi_expand(b->p, nn));
+  if (ms_alias && q == nullptr && errno != ENOMEM) vf_trip("expand-refused", "C05", "mi__expand(%p,%zu) returned NULL without setting errno to ENOMEM (errno=%d)", (void*)b->p, nn, errno);
   S.ep_count[EP_expand]++;
   hmix(S, 0xE0000000ull + nn);
   TRACE(S, "expand %p u=%zu -> %zu : %p", (void*)b->p, b->u, nn, q);
@@ -734,6 +774,10 @@ static void do_query(State& S) {
   size_t u = mi_usable_size(b->p);
   S.ep_count[EP_usable_size]++;
   if (u != b->u) vf_trip("usable-size-changed", "C03", "mi_usable_size(%p) was %zu after allocation and is %zu now", (void*)b->p, b->u, u);
+  { size_t u1 = mi_malloc_size(b->p), u2 = mi_malloc_usable_size(b->p);
+    if (u1 != u || u2 != u) vf_trip("usable-size-changed", "C03", "mi_malloc_size(%p) = %zu, mi_malloc_usable_size = %zu but mi_usable_size = %zu", (void*)b->p, u1, u2, u);
+    size_t g1 = mi_malloc_good_size(b->n), g2 = mi_good_size(b->n);
+    if (g1 != g2 || g1 < b->n) vf_trip("usable-size-changed", "C03", "mi_malloc_good_size(%zu) = %zu but mi_good_size = %zu", b->n, g1, g2); }
   if (!mi_is_in_heap_region(b->p)) {
     // only arena memory is registered as heap region; OS-allocated segments are not => informational only
   }
